@@ -94,4 +94,15 @@ TEXT.update({
         note="Trusted: Lean kernel + 3 standard axioms; ticker/select/channel semantics modelled; eventual closing is proved as absence of stuck states, not as a fairness leadsTo; tie = this run's event logs.",
         technique="Lean 4 proof (12-clause inductive invariant over the goroutine/receiver/cancel LTS) + concurrent trace acceptance"),
 })
+TEXT.update({
+    "C11": dict(
+        text="A Lean theorem over an abstract mutex/RWMutex trace semantics (consistent locking: a common lock held in write mode by every writer implies that the first of two "
+             "conflicting accesses' thread released the lock in between) plus a kernel-decided check that the field-access table regenerated from /repo on this run (every read/write "
+             "of a field of a library struct with the locks held on every path, inter-procedurally, incl. the Exclusive lock hand-off) follows a per-field policy (guarded / immutable "
+             "after construction / lazily initialised by ensure / not shared / two justified orderings). Data-race freedom of compiled code is NOT proved: the table is the "
+             "translator's view; the pairwise -race matrix is a search for a concrete failing input, not part of the proof.",
+        note="Trusted: Lean kernel + 3 standard axioms; the translator (attribution of accesses, lockset dataflow); Go memory model for sync primitives modelled; atomics, channel hand-over and "
+             "reflection-mediated accesses are not in the table.",
+        technique="Lean 4 proof (lockset / Eraser lemma) instantiated on a regenerated access table by kernel evaluation; race-detector matrix as search"),
+})
 NOT_YET = {}
